@@ -7,10 +7,16 @@
      rx        : pattern -> text -> bool          Go regexp Compile + MatchString (paths "~...")
      post      : body -> option status            the HTTP POST to the auth server (None = transport error)
      jwt_parse : token -> option (subject, raw claim value or None)
-                                                  golang-jwt ParseWithClaims with the JWKS keyfunc and the configured
-                                                  issuer/audience options on a RegisteredClaims-typed claims value:
-                                                  Some iff the token is well formed, its alg/kid/signature verify against a
-                                                  JWKS key and exp/nbf/iat/iss/aud validate; the raw JSON under the claim key
+                                                  golang-jwt ParseWithClaims with the JWKS keyfunc and the parser options
+                                                  authenticateJWT passes: Some iff the token is well formed, its
+                                                  alg/kid/signature verify against a JWKS key and exp/nbf/iss/aud validate;
+                                                  the raw JSON under the claim key. authenticate_jwt is generic in it;
+                                                  authenticate_jwt_cfg (end of file) instantiates it with
+                                                  parse_with_claims jwt_verify (parser_opts JWTIssuer JWTAudience), where
+     jwt_verify : token -> option jclaims         is ParseWithClaims with the JWKS keyfunc and NO parser option (well formed,
+                                                  alg/kid/signature, exp/nbf) returning the registered claims sub, iss, aud
+                                                  and the raw JSON under the claim key; the option list and golang-jwt's
+                                                  Validator.verifyIssuer / verifyAudience are modelled (parser_opts, opt_ok)
      dec_perms : raw JSON -> option (list perm)   jsonwrapper.Unmarshal into []AuthInternalUserPermission
      dec_str   : raw JSON -> option string        json.Unmarshal into string
    req.IP.String() and req.ID.String() are shipped as strings (x_ipstr, x_id). *)
@@ -223,3 +229,50 @@ Definition authenticate_jwt (ex : list perm) (jwks_ok : bool) (in_query : option
        end.
 
 End Ext.
+
+(* ---- authenticateJWT's parser options: JWTIssuer, JWTAudience ------------------------------------ *)
+
+(* what golang-jwt hands back for a token that verifies without any option: RegisteredClaims.Subject / .Issuer ("" when
+   absent) / .Audience (ClaimStrings: a string is a one-element list; nil when absent), and the raw JSON under the claim key *)
+Record jclaims := { jc_sub : list Z; jc_iss : list Z; jc_aud : list (list Z); jc_raw : option (list Z) }.
+
+Inductive popt := WithIssuer (s : list Z) | WithAudience (s : list Z).
+
+(* var opts []jwt.ParserOption
+   if m.JWTIssuer != "" { opts = append(opts, jwt.WithIssuer(m.JWTIssuer)) }
+   if m.JWTAudience != "" { opts = append(opts, jwt.WithAudience(m.JWTAudience)) } *)
+Definition parser_opts (issuer audience : list Z) : list popt :=
+  (match issuer with [] => [] | _ :: _ => [WithIssuer issuer] end) ++
+  (match audience with [] => [] | _ :: _ => [WithAudience audience] end).
+
+(* golang-jwt v5.3.1 Validator.Validate, the two checks the options switch on (each is independent of the other and of
+   the exp/nbf checks; a failure of any makes ParseWithClaims fail):
+   WithIssuer(s): expectedIss = s; checked when s != ""; verifyIssuer: iss == "" -> required claim missing, else iss == s.
+   WithAudience(s): expectedAud = [s], expectAllAud = false; verifyAudience: len(aud) == 0 or aud == [""] -> required claim
+   missing; else some element of aud is contained in [s]. *)
+Definition opt_ok (c : jclaims) (o : popt) : bool :=
+  match o with
+  | WithIssuer s => match s with
+                    | [] => true
+                    | _ :: _ => match jc_iss c with [] => false | _ :: _ => list_eqb (jc_iss c) s end
+                    end
+  | WithAudience s => match jc_aud c with
+                      | [] => false
+                      | [[]] => false
+                      | auds => existsb (fun a => list_eqb a s) auds
+                      end
+  end.
+
+(* jwt.ParseWithClaims(token, &cc, keyfunc, opts...) as seen by authenticateJWT *)
+Definition parse_with_claims (jwt_verify : list Z -> option jclaims) (opts : list popt) (tok : list Z)
+  : option (list Z * option (list Z)) :=
+  match jwt_verify tok with
+  | None => None
+  | Some c => if forallb (opt_ok c) opts then Some (jc_sub c, jc_raw c) else None
+  end.
+
+(* authenticateJWT with its configuration *)
+Definition authenticate_jwt_cfg (rx : list Z -> list Z -> bool) (jwt_verify : list Z -> option jclaims)
+  (dec_perms : list Z -> option (list perm)) (dec_str : list Z -> option (list Z))
+  (issuer audience : list Z) (ex : list perm) (jwks_ok : bool) (in_query : option bool) (r : xreq) : outcome :=
+  authenticate_jwt rx (parse_with_claims jwt_verify (parser_opts issuer audience)) dec_perms dec_str ex jwks_ok in_query r.
